@@ -137,6 +137,26 @@ def merkleTip (S : Nat) : List Nat := (List.range' 1 (S - 1)).reverse
 def merkleTaskWrites (n S i : Nat) : List Nat :=
   (merkleTaskLevels n S i).flatMap (fun p => (List.range' p.1 p.2).reverse)
 
+/-- `nodes[k] = H::merge(&two_nodes[k])` in heap numbering: node `k` from its children `2k`, `2k+1`; the `2n` leaves
+    of the tree are the indexes `[2n, 4n)` of the state and are never written -/
+def merkleStep {α : Type} (merge : α → α → α) (task k : Nat) : Step α :=
+  { task := task, run := fun s => setAt s k (merge (s (2 * k)) (s (2 * k + 1))) }
+
+/-- the first phase (`par_iter_mut().zip(..)`): one task per parent-of-leaves node `n + j` -/
+def merkleFirstRow {α : Type} (merge : α → α → α) (n : Nat) : List (List (Step α)) :=
+  (List.range n).map (fun j => [merkleStep merge j (n + j)])
+
+/-- the spawned tasks of the second phase -/
+def merkleTasks {α : Type} (merge : α → α → α) (n S : Nat) : List (List (Step α)) :=
+  (List.range S).map (fun i => (merkleTaskWrites n S i).map (merkleStep merge i))
+
+/-- the tip, on the calling thread -/
+def merkleTipSteps {α : Type} (merge : α → α → α) (S : Nat) : List (Step α) := (merkleTip S).map (merkleStep merge 0)
+
+/-- the serial `build_merkle_nodes`: first row upwards, then nodes `n-1, …, 1` -/
+def merkleSerial {α : Type} (merge : α → α → α) (n : Nat) : List (Step α) :=
+  (List.range n).map (fun j => merkleStep merge 0 (n + j)) ++ ((List.range' 1 (n - 1)).reverse).map (merkleStep merge 0)
+
 /-! ## fragments -/
 
 /-- `DefaultConstraintEvaluator::evaluate`: number of fragments for a constraint evaluation domain of `ce` rows -/
